@@ -394,6 +394,11 @@ func runFilters(t *testing.T, rc *core.RunCtx) {
 			role = "silent"
 			beh.SilentAfter = 1 + tp.Intn(5)
 		}
+		if rc.Prop == "C04" && !gate && tp.Chance(1, 3) {
+			// tiny header batches: the header sync takes many round trips,
+			// so that a sync peer can be lost in the middle of it
+			beh.MaxHeaders = 1 + tp.Intn(5)
+		}
 		p := w.addPeer(role, view, beh)
 		if gate {
 			// The honest node is to be among the responders of every
@@ -494,10 +499,11 @@ func runFilters(t *testing.T, rc *core.RunCtx) {
 				p.setView(newTip)
 				p.fhCache = nil
 				will := announce && (p.idx == 0 || tp.Chance(1, 2))
-				if !will && p.connected() && p.shook {
+				if p.connected() && (!will || !p.shook) {
 					// a node the client is connected to learnt a block
-					// and keeps it to itself: as good as a lost
-					// announcement
+					// and keeps it to itself (or is in the middle of its
+					// handshake, its version message with the old height
+					// already under way): as good as a lost announcement
 					unannounced = true
 				}
 				if will {
@@ -653,7 +659,7 @@ func runFilters(t *testing.T, rc *core.RunCtx) {
 		w.runFor(2*time.Minute, func() bool { return w.peers[0].shook && w.peers[0].connected() })
 	}
 	converged := w.runFor(bound/3, atHonestTip)
-	lossy := rc.Res.Faults["net.drop"]+rc.Res.Faults["net.stall"]+rc.Res.Faults["net.silent"]+rc.Res.Faults["net.close"]+rc.Res.Faults["net.down"] > 0 || unannounced
+	lossy := rc.Res.Faults["net.drop"]+rc.Res.Faults["net.stall"]+rc.Res.Faults["net.silent"]+rc.Res.Faults["net.close"]+rc.Res.Faults["net.down"] > 0 || unannounced || w.clientCloses > 0
 	if !converged && !lossy && rc.Prop == "C04" {
 		// Nothing was ever lost, delayed or cut in this run: there is no
 		// excuse for waiting for the next block.
